@@ -24,6 +24,9 @@ def resolve(qual):
     if qual == 'Dtc.Format':
         from udsoncan.common.dtc import Dtc
         return Dtc.Format
+    if qual == 'Dtc.FunctionalGroupIdentifiers':
+        from udsoncan.common.dtc import Dtc
+        return getattr(Dtc, 'FunctionalGroupIdentifiers', None)
     obj = services
     for part in qual.split('.'):
         obj = getattr(obj, part, None)
@@ -76,6 +79,8 @@ def suite_iso(ctx, with_frames=False):
                         'required': 'ISO 14229-1 value ' + (('0x%02X' % want) if isinstance(want, int) else '0x%02X..0x%02X' % want)})
                 continue
             values = [want] if isinstance(want, int) else list(range(want[0], want[1] + 1))
+            if not hasattr(cls, 'get_name'):
+                values = []         # a plain table of constants (no lookup)
             for v in values:
                 s.evaluations += 1
                 try:
